@@ -15,3 +15,5 @@ $(B)/C18/tsan_run: $(C18_TSAN_OBJS) $(B)/mc.o
 	$(CXX) -fsanitize=thread -pthread $^ -o $@
 $(B)/C18/run: | $(B)/C18/tsan_run
 -include $(wildcard $(B)/C18/tsan/*.d)
+
+NOFILL_C18 := 1
